@@ -190,3 +190,23 @@ func (c *Classifier) VerifTrace(in []byte) *VerifTrace {
 	}
 	return tr
 }
+
+// VerifMatchedRanges: the output of getMatchedRanges (hash join, density runs, fusion; before the claimed-token
+// cut) for every corpus document against the input, as (srcStart, srcEnd, targetStart, targetEnd, claimed).
+// Stage-level tie between the model (SSet.get_matched_ranges) and the code.
+func (c *Classifier) VerifMatchedRanges(in []byte) map[string][][5]int {
+	id, _ := tokenizeStream(bytes.NewReader(in), true, c.dict, false)
+	id.generateSearchSet(c.q)
+	out := map[string][][5]int{}
+	for _, key := range c.VerifDocs() {
+		d := c.docs[key]
+		var rs [][5]int
+		for _, m := range c.getMatchedRanges(d.s, id.s, c.threshold, d.s.q) {
+			rs = append(rs, [5]int{m.SrcStart, m.SrcEnd, m.TargetStart, m.TargetEnd, m.TokensClaimed})
+		}
+		if len(rs) > 0 {
+			out[key] = rs
+		}
+	}
+	return out
+}
